@@ -4,6 +4,7 @@ import (
 	"encoding/json"
 	"fmt"
 	"os"
+	"regexp"
 	"strconv"
 	"strings"
 	"testing"
@@ -56,8 +57,19 @@ func TestSelfTest(t *testing.T) {
 }
 
 // execViolations collects everything that makes one execution a violation.
+var tagRe = regexp.MustCompile(`^C\d\d:`)
+
 func execViolations(x *vsched.Exec) []string {
-	v := append([]string(nil), x.Violations...)
+	var v []string
+	tags := os.Getenv("VTAGS")
+	for _, m := range x.Violations {
+		// a scenario may serve several properties; only messages of the property being checked
+		// (and untagged ones) count in this run
+		if tags != "" && tagRe.MatchString(m) && !strings.Contains(","+tags+",", ","+m[:3]+",") {
+			continue
+		}
+		v = append(v, m)
+	}
 	if x.Panic != "" {
 		v = append(v, "PANIC in a library goroutine (would kill the process): "+firstLines(x.Panic, 12))
 	}
@@ -109,8 +121,10 @@ func TestExplore(t *testing.T) {
 		t0 := time.Now()
 		res := WorkerResult{Scenario: name, Param: p.Name, Bound: p.Bound, Shard: shard, NShards: nshards}
 		ex := &vsched.Explorer{Bound: p.Bound, Shard: shard, NShards: nshards, Deadline: deadline}
+		cfg := sc.Cfg
+		cfg.Desc = p.V["desc"] == 1
 		ex.Run = func(prefix []int, fps []string) *vsched.Exec {
-			return vsched.RunOnce(t, sc.Cfg, prefix, fps, func(s *vsched.Sched) { sc.Body(s, p) })
+			return vsched.RunOnce(t, cfg, prefix, fps, func(s *vsched.Sched) { sc.Body(s, p) })
 		}
 		ex.OnExec = func(x *vsched.Exec) bool {
 			if x.Diverged != "" {
@@ -164,6 +178,7 @@ func TestReplay(t *testing.T) {
 		t.Fatalf("unknown scenario %q", rec.Scenario)
 	}
 	cfg := sc.Cfg
+	cfg.Desc = rec.Param.V["desc"] == 1
 	cfg.Trace = os.Getenv("VNOTRACE") == ""
 	if os.Getenv("VPRE") != "" {
 		vsched.RunOnce(t, sc.Cfg, nil, nil, func(s *vsched.Sched) { sc.Body(s, rec.Param) })
